@@ -85,6 +85,7 @@ add(H("REPLAY", "m_replay_unit_amount", "verif_k::c12::m_replay_unit_amount", ""
 add(H("REPLAY", "m_replay_token_location", "verif_k::c10::m_replay_token_location", "", kani=False))
 add(H("REPLAY", "k_replay_text_field", "verif_k::c04::k_replay_text_field", "", kani=False))
 add(H("REPLAY", "m_replay_literal_string", "verif_k::c10::m_replay_literal_string", "", kani=False))
+add(H("REPLAY", "m_replay_month_twice", "verif_k::c10::m_replay_month_twice", "", kani=False))
 add(H("REPLAY", "k_replay_setters", "verif_k::c04::k_replay_setters", "", kani=False))
 add(H("REPLAY", "k_replay_set_language", "verif_k::c04::k_replay_set_language", "", kani=False))
 add(H("REPLAY", "k_replay_registration", "verif_k::c04::k_replay_registration", "", kani=False))
